@@ -218,8 +218,8 @@ pub fn run(rep: &mut Report) {
         let stats = sweep(&fam, |st, i, base| {
             for m0 in MASKS4 {
                 for m1 in MASKS4 {
-                    // quick: the 8 pairs in which the two acted-on spiders carry different or overlapping parities
-                    if quick && !matches!((m0, m1), (1, 0) | (0, 1) | (1, 1) | (1, 2) | (3, 1) | (1, 3) | (3, 3) | (2, 3)) {
+                    // quick: five pairs in which the two acted-on spiders carry different or overlapping parities
+                    if quick && !matches!((m0, m1), (1, 0) | (0, 1) | (1, 1) | (1, 2) | (3, 1)) {
                         continue;
                     }
                     if i >= small && !matches!((m0, m1), (1, 2) | (3, 1) | (1, 1)) {
